@@ -89,7 +89,7 @@ pub fn execute(plan: &Plan, entropy: u64) -> RunReport {
         let (a, b) = (outcomes(&rep), outcomes(&alt));
         if a != b {
             let shape = match plan.kind {
-                4 => "versions_of_mixed_kinds",
+                4 | 5 => "versions_of_mixed_kinds",
                 3 => "scratchpad_versions",
                 1 => "register_versions",
                 2 => "transaction_versions",
@@ -163,6 +163,7 @@ impl<'a> World<'a> {
         for (i, p) in plan.version_params.iter().enumerate() {
             let kind = match plan.kind {
                 4 => 1 + (i as u8 % 3),
+                5 => if i as u64 == plan.seed % plan.version_params.len() as u64 { 0 } else { 2 },
                 k => k,
             };
             let mut mask = p % 64;
@@ -393,6 +394,20 @@ impl<'a> World<'a> {
                 Err(e) => {
                     self.rep.log(format!("caller {c} -> Err({e})"));
                     self.rep.probe("caller_got_error");
+                    if let Some(n) = e.strip_prefix("SplitRecord#").and_then(|n| n.parse::<usize>().ok()) {
+                        // differing content that is not merged reaches the caller as the FULL set of versions
+                        let canon = |v: usize| (0..=v).find(|a| self.versions[*a].bytes == self.versions[v].bytes).unwrap_or(v);
+                        let dv: BTreeSet<usize> = delivered.iter().map(|(_, v)| canon(*v as usize)).collect();
+                        self.rep.probe("caller_got_split_record_error");
+                        if n < dv.len() {
+                            self.rep.violate(
+                                "C05",
+                                "split_error_does_not_carry_all_versions",
+                                &[("first_caller", if first { "yes" } else { "no" }.into())],
+                                format!("caller {c} received SplitRecord with {n} versions although {} differing versions had been delivered to its read", dv.len()),
+                            );
+                        }
+                    }
                     if e.contains("InternalMsgChannelDropped") && self.queries[qi].callers.iter().any(|o| self.callers[*o].cancelled) {
                         self.rep.probe("caller_failed_with_channel_error_because_a_co_waiting_caller_was_cancelled");
                     }
@@ -548,6 +563,10 @@ impl<'a> World<'a> {
                 let handle = tokio::spawn(async move {
                     let r = net.get_record_from_network(key, &cfg).await;
                     *result.lock().unwrap() = Some(r.map_err(|e: NetworkError| {
+                        if let NetworkError::GetRecordError(ant_networking::GetRecordError::SplitRecord { result_map }) = &e {
+                            // "the caller receives the full set of versions": remember how many it got
+                            return format!("SplitRecord#{}", result_map.len());
+                        }
                         let s = format!("{e:?}");
                         s.split(['(', '{', ' ']).next().unwrap_or("").to_string()
                     }));
